@@ -461,7 +461,7 @@ func init() {
 				{Backing: "store", MinMergePct: 0.01, Concern: 2},
 				{Backing: "store", MinMergePct: 100, Concern: 1, CachePersisted: true},
 			},
-			Steps: []string{"M", "Pb", "Pe", "S+", "CS+", "I+", "IX", "SS+", "H-", "CC", "CS", "R"}, Devs: []string{"m1", "p1"},
+			Steps: []string{"M", "Pb", "Pe", "S+", "CS+", "I+", "IX", "SS+", "H-", "CC", "CS", "R"}, Devs: []string{"m1", "p1", "m2", "p2"},
 			Roots: [][]string{{"B0", "M", "Pb", "Pe", "B3", "M", "Pb", "Pe", "B0"}, {"B3", "M", "Pb", "Pe", "R"}},
 			MaxB:  3, MaxD: 8, MaxK: 1, MaxH: 2, MaxR: 1, Deadline: tierDeadline(tier),
 			Note: "oracle: every open snapshot / child snapshot / iterator is re-read after every later step and must show what it showed when taken"}
@@ -480,7 +480,7 @@ func init() {
 	// C04: clean shutdown and reopen
 	g1Specs["C04"] = func(tier string) *G1Spec {
 		sp := &G1Spec{Prop: "C04", Alpha: c04Alpha, Configs: storeConfigs(tier, false),
-			Steps: []string{"M", "MA", "Pb", "Pe", "R"}, Devs: []string{"m1", "p1"},
+			Steps: []string{"M", "MA", "Pb", "Pe", "R"}, Devs: []string{"m1", "p1", "m2", "p2"},
 			Roots: [][]string{{"B4", "M", "Pb", "Pe", "R"}, {"B0", "M", "Pb", "Pe", "B2", "M", "Pb", "Pe"}},
 			MaxB:  3, MaxD: 9, MaxK: 1, MaxR: 1, Deadline: tierDeadline(tier),
 			Note: "oracle after each close+reopen: reopened content == what the store exposed right before closing == reference content after some prefix p of the batches; p = n when nothing was dirty at close time"}
@@ -503,7 +503,7 @@ func init() {
 	// C08: merge operands fold in order, exactly once
 	g1Specs["C08"] = func(tier string) *G1Spec {
 		sp := &G1Spec{Prop: "C08", Alpha: c08Alpha, Configs: baseConfigs(tier, true),
-			Steps: []string{"M", "MA", "Pb", "Pe", "R"}, Devs: []string{"m1", "p1"},
+			Steps: []string{"M", "MA", "Pb", "Pe", "R"}, Devs: []string{"m1", "p1", "m2", "p2"},
 			Roots: [][]string{{"B0", "M", "Pb", "Pe"}},
 			MaxB:  3, MaxD: 9, MaxK: 1, MaxR: 1, Deadline: tierDeadline(tier),
 			Note: "order-sensitive operator existing+\":\"+operand (nil existing rendered ^); oracle: snapshot dump == model fold at every state; map backing: lower-level content is a prefix state"}
@@ -571,7 +571,7 @@ func init() {
 			alpha = []*BatchSpec{c11Alpha[0], c11Alpha[1], c11Alpha[2], c11Alpha[3], c11Alpha[5], c11Alpha[7]}
 		}
 		sp := &G1Spec{Prop: "C11", Alpha: alpha, Configs: cfgs,
-			Steps: []string{"M", "MA", "Pb", "Pe", "R"}, Devs: []string{"m1", "p1"},
+			Steps: []string{"M", "MA", "Pb", "Pe", "R"}, Devs: []string{"m1", "p1", "m2", "p2"},
 			Roots: [][]string{{"B0", "M", "Pb", "Pe", "R"}},
 			MaxB:  3, MaxD: 9, MaxK: 1, MaxR: 1, Deadline: tierDeadline(tier),
 			Note: "tree alphabet: children A, B and A/X; oracle: recursive dump (names at every level + contents) == reference tree at every state and after every reopen"}
@@ -599,7 +599,7 @@ func init() {
 			{Backing: "map", MinMergePct: 0.01, NoLLInit: true, MergeOp: true},
 		}
 		sp := &G1Spec{Prop: "C13", Alpha: c08Alpha, Configs: cfgs,
-			Steps: []string{"M", "MA", "Pb", "Pe", "Pf"}, Devs: []string{"m1", "p1"},
+			Steps: []string{"M", "MA", "Pb", "Pe", "Pf"}, Devs: []string{"m1", "p1", "m2", "p2"},
 			Roots: [][]string{{"B0", "M", "Pb", "Pe"}},
 			MaxB:  3, MaxD: 9, MaxK: 1, Deadline: tierDeadline(tier),
 			Note: "map lower level applying each `higher` by the documented protocol; Pe/Pf = update succeeds / fails; oracles: lower level is a non-shrinking prefix state, overlay == model, failed update re-offered, drained => equal"}
